@@ -43,9 +43,9 @@ func VerifC12_CompactPreservesView() {
 	K := [2][]byte{vsym.Bytes("K0", 1), vsym.Bytes("K1", 1)}
 	vsym.Assume(K[0][0] < K[1][0])
 	nf := vsym.IntRange("files", 2, 3)
-	// file numbers follow creation order (the engine continues its numbering across restarts, so number order and
-	// timestamp order agree for every set of files it can have written)
-	restarted := false
+	// file numbers follow creation order, or run against it: databases written before the engine kept its numbering
+	// across restarts hold newer files with smaller numbers; the creation timestamp in the name tells the age
+	restarted := vsym.IntRange("numbering", 0, 1) == 1
 	var files []fileSpec
 	for f := 0; f < nf; f++ {
 		fs := fileSpec{level: vsym.IntRange("level", 0, 1), seq: f + 1, ts: 1000 + f}
